@@ -72,6 +72,10 @@ CLAIMED = {
         text="programs whose shared accesses are all mutex-protected (generated thread bodies over guarded cells, bags, nested and timed locks, sticky flags with condition variables, joins incl. of raising threads, yields, sleeps, timed waits that must expire, parameterize and dynamic-wind per thread; turn-passing rings; bounded buffers; 2-6 threads) run under schedules injected through the vm.c hook: the length of every time slice comes from an explicit vector and/or a seeded PRNG in [1,max], max from 1 instruction to the default quantum; systematic part: tiny 2-3 thread lock programs under every first-slice length from 1 to the instruction count of the program x a strided grid of second (and sampled third) slice lengths, then the default quantum; oracles: printed result equals a sequential Python model (or, buffer, the validity predicate every item consumed once in per-producer order), in-program assertions (two threads in a critical section, owner of a locked mutex, early wake-up, generous timeout expired) silent, and no lost wake-up / livelock (the run stops consuming CPU, or burns its whole CPU limit, without finishing - must reproduce in re-runs); exploration only",
         note="trusted: the sequential model; timeouts that must not expire are 1000 s, timeouts that must expire assert only a lower bound; programs need < 0.1 s, the hang limits are 12 s wall / 10 s CPU; a hang seen once and not again in 10 re-runs is counted inconclusive; new threads start with default parameter values (chibi resets them), only per-thread consistency is asserted; I/O-blocked threads and signals are not exercised",
         technique="property-based testing with schedule injection (generated programs x generated / systematically enumerated time-slice schedules), reference-model and invariant oracles, hang detection"),
+    "C13": dict(
+        text="harness/vthreads.c creates contexts without a parent and drives them from 1-16 OS threads by generated scripts (per thread a start delay and 3-14 create / run-program / collect / destroy operations over <= 4 contexts; programs = 15 workloads over C-backed and Scheme libraries incl. green threads inside a context, 6 mutators that redefine standard procedures, flood the symbol table, register types, mutate quoted constants and set parameters, and a probe of what a pristine context shows); oracle: the outputs of the programs run in one context equal the outputs of the same program sequence run alone in one context of a fresh single-threaded process (heap addresses in printed representations normalised), the ThreadSanitizer build prints no report, and the process does not crash; TSan, plain and ASan builds; exploration only (OS schedules are sampled by start delays and repetition, not enumerated)",
+        note="trusted: the single-context run on the plain build as the reference; TSan sees the interpreter and the C libraries it loads (all built with -fsanitize=thread); one OS thread per context at a time (sharing one context between OS threads is outside the statement); quick tier uses <= 8 OS threads per script because 16 shards run in parallel, thorough uses up to 16",
+        technique="property-based differential testing of generated multi-context scripts (parallel vs alone) plus ThreadSanitizer as race oracle"),
     "C14": dict(
         text="Hypothesis-generated library graphs (2-6 define-library files written to a scratch directory: uniquely tagged values, random export subsets, renamed exports, exported syntax-rules macros that expand into a private helper, re-exports through (only ...), a shared logging library called from every body) and import-set expressions (only / except / rename / prefix / drop-prefix nested to depth 4, valid by construction) loaded by a fresh chibi-scheme process per graph; oracle: a set-algebra model in Python, compared name by name ((eval 'n env) under guard) over every name of the graph under every prefix used: bound names must evaluate to the modelled tagged value and every other name must be unbound, exported macros must work while their helper stays unbound, each library body is logged once; exploration only",
         note="trusted: the Python model of R7RS 5.2/5.6 import sets (drop-prefix as implemented: strips the prefix from names that have it); import sets naming unknown identifiers and clashing imports are outside the generated domain; mutation of imported bindings is not asserted",
@@ -114,7 +118,7 @@ def main():
         },
         "engines": [{
             "name": "pbt",
-            "path": "check, pbt/, harness/vdriver.c",
+            "path": "check, pbt/, harness/vdriver.c, harness/vthreads.c",
             "serves_properties": sorted(CLAIMED),
             "kind_free_text": "property-based testing / fuzzing: seeded structured generators and Hypothesis strategies, explicit oracles (reference models in Python, round trips, differentials), every case evaluated in a forked child of a pristine chibi context (fork server linked against a fresh build of /repo's working tree), shrinking to replay files",
         }],
